@@ -9,9 +9,13 @@ package record_test
 import (
 	"bytes"
 	"context"
+	"crypto/rsa"
 	"crypto/sha256"
+	"crypto/x509"
+	"encoding/base64"
 	"encoding/binary"
 	"encoding/json"
+	"math/big"
 	"strings"
 	"testing"
 	"time"
@@ -271,6 +275,10 @@ func mkKey(t *testing.T, typ int) *keyInfo {
 	if err != nil {
 		t.Fatalf("keygen %d: %v", typ, err)
 	}
+	return keyInfoOf(t, sk, pk)
+}
+
+func keyInfoOf(t *testing.T, sk crypto.PrivKey, pk crypto.PubKey) *keyInfo {
 	raw, err := pk.Raw()
 	if err != nil {
 		t.Fatal(err)
@@ -460,6 +468,187 @@ func pubkeyFieldEdits(r *verifh.Rand, kt int64, data []byte, f func(m []byte, wh
 	f(cat(tagT, typ, tagD, protowire.AppendVarint(nil, uint64(len(data))+1), data), "length_one_more")
 	f(cat(tagT, typ, tagD, protowire.AppendVarint(nil, uint64(len(data))-1), data), "length_one_less")
 	f(cat([]byte{tagT[0] | 0x80, 0x00}, typ, tagD, dat), "tag_nonminimal")
+}
+
+type alias struct {
+	b    []byte
+	what string
+}
+
+// serializations of PublicKey{Type: kt, Data: data} other than the canonical one that
+// protobuf accepts and that carry the same (type, data)
+func keyAliases(r *verifh.Rand, kt int64, data []byte) []alias {
+	tagT := protowire.AppendTag(nil, 1, protowire.VarintType)
+	tagD := protowire.AppendTag(nil, 2, protowire.BytesType)
+	typ := protowire.AppendVarint(nil, uint64(kt))
+	dat := protowire.AppendBytes(nil, data)
+	unkV := cat(protowire.AppendTag(nil, 3, protowire.VarintType), []byte{byte(1 + r.Intn(100))})
+	unkB := cat(protowire.AppendTag(nil, 4, protowire.BytesType), protowire.AppendBytes(nil, rbytes(r, 1+r.Intn(3))))
+	return []alias{
+		{cat(tagT, typ, tagD, dat, unkV), "unknown_varint_appended"},
+		{cat(tagT, typ, tagD, dat, unkB), "unknown_bytes_appended"},
+		{cat(unkV, tagT, typ, tagD, dat), "unknown_varint_prepended"},
+		{cat(tagT, typ, unkB, tagD, dat), "unknown_bytes_between"},
+		{cat(tagD, dat, tagT, typ), "fields_reordered"},
+		{cat(tagT, []byte{byte(kt) | 0x80, 0x00}, tagD, dat), "type_redundant_varint"},
+		{cat(tagT, protowire.AppendVarint(nil, uint64(kt)+1<<32), tagD, dat), "type_plus_2^32"},
+		{cat([]byte{tagT[0] | 0x80, 0x00}, typ, tagD, dat), "tag_redundant_varint"},
+		{cat(tagT, protowire.AppendVarint(nil, uint64((kt+1)%4)), tagT, typ, tagD, dat), "type_repeated_last_wins"},
+		{cat(tagD, protowire.AppendBytes(nil, rbytes(r, 7)), tagT, typ, tagD, dat), "data_repeated_last_wins"},
+		{cat(tagT, typ, tagD, dat, protowire.AppendTag(nil, 7, protowire.StartGroupType), unkV, protowire.AppendTag(nil, 7, protowire.EndGroupType)), "unknown_group_appended"},
+		{cat(tagT, typ, tagD, dat, protowire.AppendTag(nil, 9, protowire.Fixed32Type), rbytes(r, 4)), "unknown_fixed32_appended"},
+	}
+}
+
+// identity multihash over arbitrary bytes
+func identityID(b []byte) peer.ID {
+	return peer.ID(cat([]byte{0x00}, varint.ToUvarint(uint64(len(b))), b))
+}
+
+// IDs that are NOT IDFromPublicKey(k.pk) but name the same key in some way
+func aliasIDs(r *verifh.Rand, k *keyInfo) []alias {
+	var res []alias
+	for _, a := range keyAliases(r, k.kt, k.raw) {
+		res = append(res, alias{[]byte(identityID(a.b)), "identity_over_" + a.what})
+	}
+	if len(k.canon) > 42 {
+		res = append(res, alias{[]byte(identityID(k.canon)), "identity_over_canonical_of_hashed_key"})
+	} else {
+		res = append(res, alias{cat([]byte{0x12, 0x20}, k.digest), "sha256_of_inlined_key"})
+	}
+	return res
+}
+
+// kind 11: other serializations of the same key: equal key, same marshalled form, same ID
+func c08KeyAliasCases(out *verifh.Out, r *verifh.Rand, k *keyInfo) {
+	name := ktName[k.kt]
+	for _, a := range append(keyAliases(r, k.kt, k.raw), alias{k.canon, "canonical"}) {
+		l := (&line{}).z(11, k.kt).b(k.raw).b(k.canon).b([]byte(k.id)).b(a.b)
+		pk, err := crypto.UnmarshalPublicKey(a.b)
+		if err != nil {
+			var pm cpb.PublicKey
+			cls := int64(2)
+			if perr := proto.Unmarshal(a.b, &pm); perr != nil {
+				cls = 0
+			} else if err == crypto.ErrBadKeyType {
+				cls = 1
+			}
+			l.z(cls, 0).b(nil).b(nil)
+			out.Cover("keyalias." + name + ".rejected")
+		} else {
+			eq := pk.Equals(k.pk) && k.pk.Equals(pk)
+			rem, e1 := crypto.MarshalPublicKey(pk)
+			id2, e2 := peer.IDFromPublicKey(pk)
+			if e1 != nil || e2 != nil {
+				rem, id2 = nil, ""
+			}
+			l.z(3, b2i(eq)).b(rem).b([]byte(id2))
+			out.Cover("keyalias." + name + ".accepted")
+		}
+		out.Case(l.v)
+		out.Cover("keyalias." + a.what)
+	}
+}
+
+// kind 12: MatchesPublicKey probes
+func c08Matches(out *verifh.Out, r *verifh.Rand, k *keyInfo) {
+	name := ktName[k.kt]
+	probe := func(id []byte, what string) {
+		m := peer.ID(id).MatchesPublicKey(k.pk)
+		out.Case((&line{}).z(12).b(k.canon).b(k.digest).b([]byte(k.id)).b(id).z(b2i(m)).v)
+		out.Cover("matches." + what)
+		if m {
+			out.Cover("matches." + name + ".true")
+		} else {
+			out.Cover("matches." + name + ".false")
+		}
+	}
+	idb := []byte(k.id)
+	probe(idb, "own_id")
+	probe(nil, "empty")
+	for _, a := range aliasIDs(r, k) {
+		probe(a.b, "alias_"+a.what)
+	}
+	flips(r, idb, 3, func(m []byte, w string) { probe(m, w) })
+	probe(idb[:len(idb)-1], "truncated")
+	probe(cat(idb, []byte{0}), "extended")
+}
+
+// kind 13: RSA moduli of exact bit lengths around MinRsaKeyBits and maxRsaKeyBits.  Parsing a
+// public key does not need the factors, so the modulus is a random odd number of that length.
+func c08RSASizes(t *testing.T, out *verifh.Out, r *verifh.Rand) {
+	for _, bits := range []int{1024, 2040, 2047, 2048, 2049, 3072, 4096, 8184, 8191, 8192, 8193, 8200, 16384} {
+		nb := rbytes(r, (bits+7)/8)
+		top := uint(bits-1) % 8
+		nb[0] = nb[0]&byte((1<<(top+1))-1) | byte(1<<top)
+		nb[len(nb)-1] |= 1
+		n := new(big.Int).SetBytes(nb)
+		if n.BitLen() != bits {
+			t.Fatalf("modulus has %d bits, want %d", n.BitLen(), bits)
+		}
+		der, err := x509.MarshalPKIXPublicKey(&rsa.PublicKey{N: n, E: 65537})
+		if err != nil {
+			t.Fatal(err)
+		}
+		c08RSAPublic(t, out, bits, der, "synthetic")
+	}
+}
+
+func c08RSAPublic(t *testing.T, out *verifh.Out, bits int, der []byte, what string) {
+	marshalled := mustMarshal(t, &cpb.PublicKey{Type: cpb.KeyType_RSA.Enum(), Data: der})
+	var cls, rt int64 = 2, 0
+	if pk, err := crypto.UnmarshalPublicKey(marshalled); err == nil {
+		cls = 3
+		if mb, err := crypto.MarshalPublicKey(pk); err == nil && bytes.Equal(mb, marshalled) {
+			if pk2, err := crypto.UnmarshalPublicKey(mb); err == nil && pk2.Equals(pk) && pk.Equals(pk2) {
+				rt = 1
+			}
+		}
+		out.Cover("rsa_size.accepted")
+	} else {
+		out.Cover("rsa_size.rejected")
+	}
+	out.Case([]int64{13, int64(bits), 0, cls, rt})
+	out.Cover("rsa_size." + what)
+}
+
+// the embedded 8192-bit key pair: private-key round trip, public-key round trip, all forms,
+// one signature
+func c08RSA8192(t *testing.T, out *verifh.Out, r *verifh.Rand) *keyInfo {
+	der, err := base64.StdEncoding.DecodeString(c08RSA8192PKCS1)
+	if err != nil {
+		t.Fatal(err)
+	}
+	std, err := x509.ParsePKCS1PrivateKey(der)
+	if err != nil {
+		t.Fatal(err)
+	}
+	bits := std.N.BitLen()
+	skm := mustMarshal(t, &cpb.PrivateKey{Type: cpb.KeyType_RSA.Enum(), Data: der})
+	sk, err := crypto.UnmarshalPrivateKey(skm)
+	if err != nil {
+		out.Case([]int64{13, int64(bits), 1, 2, 0})
+		out.Cover("rsa_size.embedded_8192_private_rejected")
+		// still probe the public half
+		pder, _ := x509.MarshalPKIXPublicKey(&std.PublicKey)
+		c08RSAPublic(t, out, bits, pder, "embedded_8192_public")
+		return nil
+	}
+	var rt int64
+	if mb, err := crypto.MarshalPrivateKey(sk); err == nil {
+		if sk2, err := crypto.UnmarshalPrivateKey(mb); err == nil && sk2.Equals(sk) && sk.Equals(sk2) {
+			rt = 1
+		}
+	}
+	out.Case([]int64{13, int64(bits), 1, 3, rt})
+	out.Cover("rsa_size.embedded_8192_private")
+	pk := sk.GetPublic()
+	pder, err := pk.Raw()
+	if err != nil {
+		t.Fatal(err)
+	}
+	c08RSAPublic(t, out, bits, pder, "embedded_8192_public")
+	return keyInfoOf(t, sk, pk)
 }
 
 // kind 7: verification matrix
@@ -705,11 +894,15 @@ func (c *envCtx) attempt(mode int, data []byte, dom string, what string) {
 		if merr != nil {
 			c.t.Fatalf("marshal accepted key: %v", merr)
 		}
-		l.z(1).b(signer).b(env.PayloadType).b(env.RawPayload)
+		aid, ierr := peer.IDFromPublicKey(env.PublicKey)
+		if ierr != nil {
+			c.t.Fatalf("id of accepted key: %v", ierr)
+		}
+		l.z(1).b(signer).b(env.PayloadType).b(env.RawPayload).b([]byte(aid))
 		out.Cover("env.accepted")
 		out.Cover("env.accepted." + what)
 	} else {
-		l.z(res).b(nil).b(nil).b(nil)
+		l.z(res).b(nil).b(nil).b(nil).b(nil)
 		out.Cover([]string{"env.rejected.unmarshal", "", "env.rejected.validate", "env.rejected.payload", "env.rejected.other"}[res])
 	}
 	var prres int64
@@ -856,10 +1049,6 @@ func c08Envelope(t *testing.T, out *verifh.Out, r *verifh.Rand, c *envCtx, mode 
 		}
 		c.seals = c.seals[:1]
 	}
-	if !full {
-		return
-	}
-	// wire-level edits: duplicates, unknown fields, reordering, split embedded message
 	f1 := cat(protowire.AppendTag(nil, 1, protowire.BytesType), protowire.AppendBytes(nil, signer.canon))
 	f2 := cat(protowire.AppendTag(nil, 2, protowire.BytesType), protowire.AppendBytes(nil, pt))
 	f3 := cat(protowire.AppendTag(nil, 3, protowire.BytesType), protowire.AppendBytes(nil, pl))
@@ -867,6 +1056,15 @@ func c08Envelope(t *testing.T, out *verifh.Out, r *verifh.Rand, c *envCtx, mode 
 	if len(pl) == 0 {
 		f3 = nil
 	}
+	// the signer's key in other accepted serializations (unknown fields, order, redundant
+	// varints, repeated fields): the same signer, the same marshalled form, the same ID
+	for _, a := range keyAliases(r, signer.kt, signer.raw) {
+		at(cat(protowire.AppendTag(nil, 1, protowire.BytesType), protowire.AppendBytes(nil, a.b), f2, f3, f5), dom, "wire_key_alias_"+a.what)
+	}
+	if !full {
+		return
+	}
+	// wire-level edits: duplicates, unknown fields, reordering, split embedded message
 	at(cat(f5, f3, f2, f1), dom, "wire_reordered")
 	at(cat(f1, f2, f3, f5, cat(protowire.AppendTag(nil, 2, protowire.BytesType), protowire.AppendBytes(nil, cat(pt, []byte{1})))), dom, "wire_type_overridden")
 	at(cat(cat(protowire.AppendTag(nil, 3, protowire.BytesType), protowire.AppendBytes(nil, []byte("evil"))), f1, f2, f3, f5), dom, "wire_payload_shadowed_first")
@@ -930,6 +1128,22 @@ func c08PeerRecords(t *testing.T, out *verifh.Out, r *verifh.Rand, c *envCtx, mo
 	e2 := proto.Clone(&pe).(*rpb.Envelope)
 	e2.PublicKey = fpk
 	c.attempt(mode, mustMarshal(t, e2), evil.Domain(), "record_names_foreign_id_key_swapped")
+	// alias IDs: other IDs that name the signer's own key (identity multihash over another
+	// serialization of it, the inline form of a key that must be hashed, the hashed form of a
+	// key that must be inlined), in a record the signer seals itself
+	for _, a := range aliasIDs(r, signer) {
+		ar := &peer.PeerRecord{PeerID: peer.ID(a.b), Addrs: []ma.Multiaddr{addr}, Seq: 7}
+		env, err := record.Seal(ar, signer.sk)
+		if err != nil {
+			t.Fatal(err)
+		}
+		d, _ := env.Marshal()
+		var p rpb.Envelope
+		proto.Unmarshal(d, &p)
+		c.seals = []sealRow{{0, ar.Domain(), p.PayloadType, p.Payload, p.Signature}}
+		c.attempt(mode, d, ar.Domain(), "record_id_alias_"+a.what)
+		out.Cover("peerrecord.alias_id_attempts")
+	}
 	// a peer ID that is a valid multihash of another kind over the right key digest
 	if len(signer.id) == 34 {
 		odd := &peer.PeerRecord{PeerID: peer.ID(cat([]byte{0x16, 0x20}, []byte(signer.id)[2:])), Addrs: []ma.Multiaddr{addr}, Seq: 7}
@@ -970,6 +1184,15 @@ func TestVerifC08(t *testing.T) {
 	}
 	defer dsb.Close()
 
+	// RSA key-size boundaries: synthetic moduli, and the embedded real 8192-bit key
+	c08RSASizes(t, out, r)
+	if big8192 := c08RSA8192(t, out, r); big8192 != nil {
+		c08KeyCase(t, out, big8192)
+		c08KeyAliasCases(out, r, big8192)
+		c08Matches(out, r, big8192)
+		c08Sigs(t, out, r, big8192, nil, 1, 64)
+	}
+
 	types := []int{crypto.Ed25519, crypto.Secp256k1, crypto.ECDSA, crypto.RSA}
 	rounds := 2
 	if thorough {
@@ -991,6 +1214,8 @@ func TestVerifC08(t *testing.T) {
 				}
 			}
 			c08KeyCase(t, out, k)
+			c08KeyAliasCases(out, r, k)
+			c08Matches(out, r, k)
 			others := []*keyInfo{ks[(i+1)%4], ks[(i+2)%4], mkKey(t, types[i])}
 			if isRSA {
 				others = others[:2]
